@@ -33,8 +33,6 @@ func validateDirectives(doc *ast.Document, s *schema.Schema, features schema.Fea
 		case *ast.InlineFragment:
 			directives = node.Directives
 			location = schema.DirectiveLocationInlineFragment
-		case *ast.Directive:
-			ret = append(ret, newError(node, "unsupported directive location"))
 		}
 
 		if len(directives) == 0 {
@@ -66,7 +64,10 @@ func validateDirectives(doc *ast.Document, s *schema.Schema, features schema.Fea
 				directiveNames[name] = struct{}{}
 			}
 		}
-		return false
+
+		// Keep descending: selections nested beneath this node can have directives of their own.
+		// (Directives only ever appear on the node types handled above.)
+		return true
 	})
 	return ret
 }
